@@ -94,6 +94,9 @@ def apply_inplace(mod, op):
         mod.user_defined[op["i"]].label = op["v"]
     elif k == "mm_map":
         mod.mappings.values[op["i"]].module, mod.mappings.values[op["i"]].controller = op["v"]
+        # re-derive type and value of the re-mapped user-defined controller (as the reader does), otherwise the
+        # stored value may be outside the new target's domain and the edit is not an in-domain one
+        mod.update_user_defined_controllers()
     elif k == "mm_inner_module":
         mod.project.new_module(rv.m.Amplifier, volume=77)
     elif k == "mm_inner_name":
